@@ -17,6 +17,11 @@ COMMON_ASSUME = [
 CPLX_ENV = {"SLUSYM_NAMEDIV": "1"}   # complex: purify divisions (q*y == x) -- helps nlsat on Smith's quotient
 
 
+# library functions in which a division by a value that can be exactly zero on a feasible path is a violation (pivot chosen / solved with without being known nonzero):
+# the pivoting kernel, the numeric update kernels and the triangular solves (real precisions; the complex quotient routine's own case split is undecided too often)
+DIV0_FN = r"^([sd]pivotL|[sd]gstrs|sp_[sd]trsv|[sd]usolve|[sd]lsolve|[sd]snode_bmod|[sd]column_bmod|[sd]panel_bmod|[sd]trsv_?|[sd]trsm_?)$"
+
+
 def fcase(m, n, pat, colperm=0, permidx=0, sym=0, tune="t111", umode=0, flags=0, symcols=-1, lwork=0, woff=0, failat=0):
     t = T[tune] if isinstance(tune, str) else tune
     if C.structural_rank(m, n, pat) < n: flags |= 2
@@ -124,7 +129,7 @@ def check_factor(chk, prefixes, tier, purpose, crash=False):
     for prec in precs(tier):
         cs = factor_cases(tier, purpose, prec)
         qb = {"C04": {"d": 170, "z": 80}}.get(purpose, {}).get(prec, 200)      # C04 also runs two driver phases: keep the quick tier's total near five minutes
-        run_phase(chk, "factor/" + prec, H + "h_factor.c", cs, prefixes, prec=prec, budget_s=qb if tier == "quick" else 2400, bounds=FACTOR_BOUNDS, crash_is_violation=crash,
+        run_phase(chk, "factor/" + prec, H + "h_factor.c", cs, prefixes, prec=prec, budget_s=qb if tier == "quick" else 2400, bounds=FACTOR_BOUNDS, crash_is_violation=crash, div0_functions=DIV0_FN if prec in "ds" else None,
                   qtimeout_ms=(3000 if prec in "zc" else 10000) if tier == "quick" else 60000, env=CPLX_ENV if prec in "zc" else None)
     if tier != "quick":
         cs = factor_cases(tier, purpose, "d")
@@ -148,13 +153,13 @@ def check_C04(chk, tier):
     q = tier == "quick"
     gs = [c for c in gssv_cases(tier, "d", "C04") if c[0] <= 2] + [gcase(3, pat, tune=tn, umode=3, storage=st) for pat in (511, C.band(3, 1, 1), C.arrow(3), 0b011011011, 0b110110011) for tn, st in (("t212", 0), ("t122", 1))]
     if not q: gs += [c for c in gssv_cases(tier, "d", "C04") if c[0] == 3][::2]
-    run_phase(chk, "gssv(singularity through the simple driver)/d", H + "h_gssv.c", list(dict.fromkeys(gs)), ["C04."], prec="d", budget_s=90 if q else 1500, bounds=GSSV_BOUNDS, qtimeout_ms=8000 if q else 60000, validate_samples=0)
+    run_phase(chk, "gssv(singularity through the simple driver)/d", H + "h_gssv.c", list(dict.fromkeys(gs)), ["C04."], prec="d", budget_s=90 if q else 1500, bounds=GSSV_BOUNDS, div0_functions=DIV0_FN, qtimeout_ms=8000 if q else 60000, validate_samples=0)
     xs = []
     for pat in C.all_patterns(2, 2)[1:]:
         xs.append(xcase(2, pat, umode=1 if bin(pat).count("1") >= 3 else 3, growth=1, storage=(pat >> 2) & 1))
         if C.structural_rank(2, 2, pat) == 2: xs.append(xcase(2, pat, hist=13, umode=3)); xs.append(xcase(2, pat, hist=12, umode=3, storage=1, trans=2))
     xs += [xcase(3, C.band(3, 1, 1), hist=13, umode=3, symcols=6, tune="t212"), xcase(3, 511, hist=13, umode=3, symcols=4, tune="t122"), xcase(3, 0b011011011, umode=0, symcols=-1, tune="t122")]
-    run_phase(chk, "gssvx(singularity through the expert driver, refactor histories with u = 0)/d", H + "h_gssvx.c", list(dict.fromkeys(xs)), ["C04.", "C06.Udiag.nonzero", "C05.info.range"], prec="d", budget_s=90 if q else 1200, bounds=GSSVX_BOUNDS,
+    run_phase(chk, "gssvx(singularity through the expert driver, refactor histories with u = 0)/d", H + "h_gssvx.c", list(dict.fromkeys(xs)), ["C04.", "C06.Udiag.nonzero", "C05.info.range"], prec="d", budget_s=90 if q else 1200, bounds=GSSVX_BOUNDS, div0_functions=DIV0_FN,
               qtimeout_ms=8000 if q else 60000, validate_samples=0, key_extra=lambda c: {"storage": str(c[2]), "trans": str(c[16]), "hist": str(c[15])})
 
 
@@ -234,7 +239,7 @@ GSSV_BOUNDS = "n <= 3 fully symbolic (patterns per tier), reach cases n <= 10 (1
 def check_gssv(chk, prefixes, tier, purpose):
     for prec in precs(tier):
         cs = gssv_cases(tier, prec, purpose)
-        run_phase(chk, "gssv/" + prec, H + "h_gssv.c", cs, prefixes, prec=prec, budget_s=200 if tier == "quick" else 2400, bounds=GSSV_BOUNDS,
+        run_phase(chk, "gssv/" + prec, H + "h_gssv.c", cs, prefixes, prec=prec, budget_s=200 if tier == "quick" else 2400, bounds=GSSV_BOUNDS, div0_functions=DIV0_FN if prec in "ds" else None,
                   qtimeout_ms=(3000 if prec in "zc" else 10000) if tier == "quick" else 60000, env=CPLX_ENV if prec in "zc" else None)
     if tier != "quick":
         cs = gssv_cases(tier, "d", purpose)
@@ -331,7 +336,7 @@ GSSVX_BOUNDS = "n <= 3 symbolic (fully or one/two symbolic columns with generic 
 def check_gssvx(chk, prefixes, tier, purpose):
     for prec in precs(tier):
         cs = gssvx_cases(tier, prec, purpose)
-        run_phase(chk, "gssvx/" + prec, H + "h_gssvx.c", cs, prefixes, prec=prec, budget_s=240 if tier == "quick" else 3000, bounds=GSSVX_BOUNDS,
+        run_phase(chk, "gssvx/" + prec, H + "h_gssvx.c", cs, prefixes, prec=prec, budget_s=240 if tier == "quick" else 3000, bounds=GSSVX_BOUNDS, div0_functions=DIV0_FN if prec in "ds" else None,
                   qtimeout_ms=(3000 if prec in "zc" else 8000) if tier == "quick" else 60000, env=CPLX_ENV if prec in "zc" else None,
                   key_extra=lambda c: {"storage": str(c[2]), "trans": str(c[16]), "hist": str(c[15])})
 
@@ -909,7 +914,7 @@ def replay(pid, path):
         hit = False
         for nm, x in (("instrumented-concrete", exe), ("native", ne)):
             rc, err, recs = e2phase.concrete_run(x, rp["case"], vf)
-            r = any(q.get("k") in ("V", "C") and q.get("id") == key.get("assert_id") for q in recs) or rc in (-11, -6, 139, 134); hit = hit or r
+            r = any(q.get("k") in ("V", "C") and q.get("id") == key.get("assert_id") for q in recs) or rc in (-11, -6, 139, 134) or (str(key.get("assert_id", "")).startswith("div-by-zero:") and any(q.get("k") == "E" and str(q.get("ev", "")).startswith("div-by-zero") for q in recs)); hit = hit or r
             print("%s: %s (rc=%s)" % (nm, "reproduced" if r else "not reproduced", rc))
         if hit: print("VIOLATION property=%s replay=%s" % (pid, path))
         return 1 if hit else 0
